@@ -124,7 +124,7 @@ Fixpoint blocked_writes (stop_at_first : bool) (checks : list bool) : nat :=
 Theorem vnc_stall_fixed : forall checks, (blocked_writes true checks <= 1)%nat.
 Proof. destruct checks; simpl; lia. Qed.
 
-(* the tree: text, "$HEIGHT", text, "$WIDTH", rest - a dead client is waited for four times *)
+(* the tree: text, "$HEIGHT", text, "$WIDTH", rest - a dead client is waited for five times (four unchecked writes and the checked last one) *)
 Lemma vnc_stall_w :
   blocked_writes false (subst_checks 100 (cfg_w false) [] [120; 36; 72; 69; 73; 71; 72; 84; 120; 36; 87; 73; 68; 84; 72; 120]) = 5%nat.
 Proof. vm_compute. reflexivity. Qed.
